@@ -627,3 +627,21 @@ package geometry
 //@   ret have Ends: forall j int :: 0 <= j && j < sNseg(result.baseSeries) ==> (sSeg(result.baseSeries,j).A == ptAt(points,j) && sSeg(result.baseSeries,j).B == ptAt(points, ite(j == len(points)-1, 0, j+1)))
 //@   ret have DomBody: forall j int :: 0 <= j && j < sNseg(result.baseSeries) ==> inDom(sSeg(result.baseSeries,j).A) && inDom(sSeg(result.baseSeries,j).B)
 //@   ret have Dom: seriesInDomSeg(result.baseSeries)
+
+//@ spec func ptsExact(ps []Point) bool { ptsInDom(ps) && (forall k int :: 0 <= k && k < len(ps) ==> abs(trapCode(ps,k) + trapTerm(ps,k)) < pow53()) }
+//@ spec func holeAt(hs [][]Point, h int) []Point opaque { hs[h] }
+
+//@ func NewPoly
+//@   props C11 C01
+//@   entry use globalsInit()
+//@   requires ptsExact(exterior)
+//@   requires forall h int :: 0 <= h && h < len(holes) ==> ptsExact(holeAt(holes, h))
+//@   ensures Inv: PolyInv(result)
+//@   ensures Ext: polyExt(result) != nil && isBS(polyExt(result)) && sNpts(polyExt(result)) == len(exterior) && (forall i int :: 0 <= i && i < len(exterior) ==> sPt(polyExt(result), i) == ptAt(exterior, i))
+//@   ensures NHoles: polyNHoles(result) == len(holes)
+//@   ensures Holes: forall h int :: 0 <= h && h < len(holes) ==> (isBS(polyHole(result,h)) && sNpts(polyHole(result,h)) == len(holeAt(holes,h)))
+//@   ensures Fresh: !old($alloc)[result]
+//@   loop 0 invariant poly != nil && !old($alloc)[poly] && polyExt(poly) != nil && RingInv(polyExt(poly)) && polyNHoles(poly) == len(holes)
+//@   loop 0 invariant isBS(polyExt(poly)) && sNpts(polyExt(poly)) == len(exterior) && (forall i int :: 0 <= i && i < len(exterior) ==> sPt(polyExt(poly), i) == ptAt(exterior, i))
+//@   loop 0 invariant forall h int :: 0 <= h && h < $i ==> (polyHole(poly,h) != nil && RingInv(polyHole(poly,h)) && isBS(polyHole(poly,h)) && sNpts(polyHole(poly,h)) == len(holeAt(holes,h)))
+//@   loop 0 assert holeAt(holes, $i) == holes[$i]
